@@ -7,6 +7,8 @@
 -/
 import Vita.C07.Lemmas
 import Vita.C07.StreamLemmas
+import Vita.C07.CodeLemmas
+import Vita.C07.EngineLemmas
 import Vita.C07.Gen
 namespace Vita.C07
 open Vita.Rng
@@ -126,7 +128,74 @@ theorem blank_separator_witness :
       = some (⟨1222333444, 9, 9, 9⟩, false) := by
   decide
 
+/-! ### the code of the generator itself
+
+`GenCode.prog` is regenerated on every run from the clang AST of `vigna::rotl`, `splitmix64` (constructor,
+`next`), `seed_with_sm64`, `xoshiro256ss::seed`, `operator()`, `operator==` (terms of Vita/C07/U64E.lean:
+`std::uint64_t` arithmetic, shifts ≥ 64 and subscripts outside `state` undefined).  The `gen_*_code`
+theorems say that this code, as it is now, is defined on every input and computes the model of
+Vita/Common/Rng.lean; the others are properties of the code obtained through them. -/
+
+theorem gen_rotl_code (x k : UInt64) (h0 : 0 < k) (h1 : k < 64) : U.rotlOf GenCode.prog x k = some (rotl x k) :=
+  gen_rotl_eq x k h0 h1
+theorem gen_splitmix_code (x : UInt64) : U.smNextOf GenCode.prog x = some (splitmixNext x) := gen_splitmix_eq x
+/-- `operator()`: no undefined behaviour in any state; result and successor state are the model's -/
+theorem gen_next_code (e : Xo) : U.nextOf GenCode.prog (words e) = some ((e.next).1, words (e.next).2) :=
+  gen_next_eq e
+/-- `seed(s)` -/
+theorem gen_seed_code (s : UInt64) (e : Xo) : U.seedOf GenCode.prog s (words e) = some (words (Xo.seed s)) :=
+  gen_seed_eq s e
+/-- `operator==` -/
+theorem gen_eq_code (a b : Xo) : U.eqOf GenCode.prog (words a) (words b) = some (decide (a = b)) := gen_eq_eq a b
+/-- the stream of the translated `operator()` is the model's stream -/
+theorem gen_stream_code (e : Xo) (n : Nat) : genNth (words e) n = some (e.nth n) := genNth_eq e n
+
+/-- **seeding_deterministic**: the state after `seed(s)` – hence every number drawn afterwards – is a function
+    of `s` alone: nothing of the engine's previous state survives a seeding. -/
+theorem seeding_deterministic (s : UInt64) (e e' : Xo) :
+    U.seedOf GenCode.prog s (words e) = U.seedOf GenCode.prog s (words e') ∧
+    ∃ st, U.seedOf GenCode.prog s (words e) = some st ∧ ∀ n, genNth st n = some ((Xo.seed s).nth n) := by
+  refine ⟨by rw [gen_seed_eq, gen_seed_eq], words (Xo.seed s), gen_seed_eq s e, fun n => genNth_eq _ n⟩
+
+/-- **seed_never_all_zero**: no seed puts the engine into the all-zero state (the fixed point of xoshiro256**,
+    from which every draw would be 0). -/
+theorem seed_never_all_zero (s : UInt64) (e : Xo) : U.seedOf GenCode.prog s (words e) ≠ some [0, 0, 0, 0] := by
+  rw [gen_seed_eq]
+  intro h
+  have : words (Xo.seed s) = words ⟨0, 0, 0, 0⟩ := by
+    have h' : words (Xo.seed s) = [0, 0, 0, 0] := by simpa using h
+    rw [h']; rfl
+  exact seed_ne_zero s (words_inj this)
+
+/-- **eq_iff_same_stream**: the code's `operator==` answers `true` exactly when the two engines will produce
+    the same sequence of numbers forever (four equal numbers suffice). -/
+theorem eq_iff_same_stream (a b : Xo) :
+    U.eqOf GenCode.prog (words a) (words b) = some true ↔ ∀ n, genNth (words a) n = genNth (words b) n := by
+  rw [gen_eq_eq]
+  constructor
+  · intro h
+    have hab : a = b := by simpa using h
+    intro n; rw [hab]
+  · intro h
+    have : a = b := state_of_outputs a b (fun n _ => by
+      have := h n
+      rw [genNth_eq, genNth_eq] at this
+      simpa using this)
+    simp [this]
+
+theorem eq_of_four_outputs (a b : Xo) (h : ∀ n, n < 4 → a.nth n = b.nth n) : a = b := state_of_outputs a b h
+
+/-- **stream_after_roundtrip_code**: under every demanded stream configuration the restored engine makes the
+    translated `operator()` produce exactly the numbers the original would have produced. -/
+theorem stream_after_roundtrip_code (c : Cfg) (h : Demanded c) (a b : Xo) :
+    ∃ r, saveRestoreC c Gen.writeItems Gen.readIdx a b = some (r, true) ∧
+      ∀ n, genNth (words r) n = genNth (words a) n :=
+  ⟨a, cfg_state_roundtrip c h a b, fun _ => rfl⟩
+
 /-! ### non-vacuity -/
+example : U.seedOf GenCode.prog 0 (words ⟨7, 7, 7, 7⟩) = some (words (Xo.seed Xo.defSeed)) := by
+  rw [gen_seed_eq]; rfl
+example : U.rotlOf GenCode.prog 1 64 = none := by decide
 example : Demanded { facet := true, sep := ',', grouping := [3], width := 30, fill := ' ', adjust := 2,
                      showbase := true, showpos := true } := by decide
 example : putState { facet := true, sep := ',', grouping := [3, 2] } Gen.writeItems 0
